@@ -81,6 +81,7 @@ func cronRound(s *sess, g *group, round int, t0 time.Time) {
 	variant := round + s.seed
 	lockstep := variant%2 == 0
 	clk := clocktesting.NewFakeClock(t0)
+	defer nudge(clk)()
 	c := cron.New(cron.WithSeconds(), cron.WithLocation(time.UTC), cron.WithClock(clk), cron.WithLogger(cron.DiscardLogger))
 	release := make(chan struct{})
 	var inside atomic.Int64
